@@ -210,3 +210,17 @@ def run(ctx):
             how = 'delegates to another selection function'
         ctx.ob('C09.5', g, 'selected-by-to_seq', ordered, '%s: %s' % (g.path.rsplit('::', 1)[-1], how if ordered else
                'NO ordering on to_seq among the candidates (first / last match by position): a back-filled older cut point can shadow the newest one'), line=g.line)
+
+    # ---------------------------------------------------------------- C09.6
+    from .common import char_boundary_ops
+    ctx.rule('C09.6', 'the job cannot die on the text it summarises: in everything reachable from the auto-compaction executor (compaction_auto_run_spawned_job_v1: the summariser, the renderers of compaction_auto_summary, the summary writer) there is no byte-offset string operation that panics off a UTF-8 character boundary (String::truncate / split_off / insert / remove / drain / replace_range, str::split_at, str range indexing) unless the same function derives or tests the offset. A panic after job_spawned leaves the job without its job_ended frame and the cut point without a checkpoint.')
+    par6 = P.reach_fns([STORE + 'compaction_auto_run_spawned_job_v1'] + [p_ for p_ in P.fns if p_.startswith('ripd::compaction_auto_summary::') and '{closure' not in p_])
+    scope6 = [P.fns[p_] for p_ in sorted(par6) if p_ in P.fns and P.fns[p_].crate.startswith('rip') and P.fns[p_].crate not in ('rip', 'rip_tui', 'rip_cli')]
+    ctx.floor('C09.6', 'functions reachable from the auto-compaction executor', len(scope6), 20)
+    ops6 = char_boundary_ops(P, scope6)
+    wit6 = char_boundary_ops(P, [g_ for g_ in P.fns.values() if g_.crate in ('rip', 'rip_tui')])
+    ctx.ob('C09.6', 'workspace', 'matcher-alive', len(wit6) >= 1, 'the same matcher finds %d byte-offset string operation(s) in the terminal client crates (positive example); %d function(s) of the compaction job scanned, %d operation(s) found there' % (len(wit6), len(scope6), len(ops6)))
+    for (g_, s_, ok_) in ops6:
+        ctx.touch(g_)
+        ctx.ob('C09.6', g_, 'char-boundary:' + s_.name, ok_, '%s on summarised text %s' % (s_.name, 'with the offset derived / tested in the same function' if ok_ else
+               'with an UNCHECKED byte offset: a multi-byte character straddling it panics the compaction job after job_spawned — no checkpoint, no job_ended'), line=s_.line)
